@@ -46,3 +46,72 @@ package dispatch
 //@   trusted
 //@   modifies d.obsWrite
 //@   ensures result == d.obsWrite
+
+// ---- remote input (property C14) ------------------------------------------------------------------
+//
+// The message handlers below are verified `nopanic` with NO condition on the contents of the
+// message: every field is whatever proto.Unmarshal produced from the peer's bytes, and every
+// sub-message pointer may be nil. dwf/pwf are the shapes newDispatcher and addPeer build: one counter
+// per piece, and a peer bitfield exactly as long as the torrent.
+
+//@ specfunc dwf(d *Dispatcher) bool = d != nil && d.torrent != nil && d.torrent.Torrent != nil && len(d.numPeersByPiece) == d.torrent.Torrent.npieces && d.torrent.Torrent.npieces <= 1099511627776 && mshape(d.pieceRequestManager) && d.netevents != nil
+//@ specfunc pwf(d *Dispatcher, p *peer) bool = p != nil && p.bitfield != nil && p.bitfield.b != nil && p.bitfield.b.len == d.torrent.Torrent.npieces && p.messages != nil && p.pstats != nil && p.clk != nil
+
+//@ func syncBitfield.Set
+//@   requires s != nil && s.b != nil && i < s.b.len
+//@   nopanic
+
+//@ func syncBitfield.GetAllSet
+//@   requires s != nil && s.b != nil && s.b.len <= 1099511627776
+//@   nopanic
+//@   ensures in_range: forall k int :: 0 <= k && k < len(result) ==> result[k] < s.b.len
+//@   loop 0 invariant in_range: (forall k int :: 0 <= k && k < len(all) ==> all[k] < s.b.len) && (forall k int :: 0 <= k && k < len(buffer) ==> buffer[k] < s.b.len)
+
+// dispatch: a message whose body for its declared type is missing is rejected, not dereferenced.
+//@ func Dispatcher.dispatch
+//@   requires dwf(d) && pwf(d, p) && msg != nil && msg.Message != nil
+//@   nopanic
+//@   modifies *
+
+//@ func Dispatcher.handleError
+//@   requires dwf(d) && pwf(d, p) && msg != nil
+//@   nopanic
+//@   modifies *
+
+// An announced index outside [0, NumPieces) is dropped: it never reaches the bitfield (which would
+// grow without bound) or the per-piece counters.
+//@ func Dispatcher.handleAnnouncePiece
+//@   requires dwf(d) && pwf(d, p) && msg != nil
+//@   nopanic
+//@   modifies *
+
+//@ func Dispatcher.isFullPiece
+//@   requires dwf(d)
+//@   nopanic
+//@   ensures result ==> offset == 0
+
+// A request is served only through the torrent's GetPieceReader, which rejects foreign indices.
+//@ func Dispatcher.handlePieceRequest
+//@   requires dwf(d) && pwf(d, p) && msg != nil
+//@   nopanic
+//@   modifies *
+
+//@ func Dispatcher.handlePiecePayload
+//@   requires dwf(d) && pwf(d, p) && msg != nil && payload != nil
+//@   nopanic
+//@   modifies *
+
+// addPeer: the remote bitfield comes from the peer's handshake; its length is whatever the peer
+// sent. Counters are touched only for indices inside the torrent.
+//@ func Dispatcher.addPeer
+//@   requires dwf(d) && b != nil && messages != nil
+//@   nopanic
+//@   modifies *
+//@   ensures result1 == nil ==> result0 != nil && result0.bitfield != nil && result0.bitfield.b != nil && result0.bitfield.b.len == d.torrent.Torrent.npieces
+//@   loop 0 invariant idx: 0 - 1 <= rangeindex && rangeindex <= 281474976710656 && dwf(d)
+
+//@ func Dispatcher.removePeer
+//@   requires dwf(d) && pwf(d, p)
+//@   nopanic
+//@   modifies *
+//@   loop 0 invariant idx: 0 - 1 <= rangeindex && rangeindex <= 281474976710656 && dwf(d)
